@@ -39,7 +39,7 @@ def cfg_json(args):
     return c
 
 
-def run_configs(ctx, pid, mons, configs, heap="12g", workers=8, random_runs=None):
+def run_configs(ctx, pid, mons, configs, heap="12g", workers=8, random_runs=None, spec_fidelity=None, spec_mc=False):
     ctx.level = "model_checking"
     exe = harness()
     wd = recs.workdir(pid)
@@ -99,10 +99,28 @@ def run_configs(ctx, pid, mons, configs, heap="12g", workers=8, random_runs=None
                 ctx.violation(sig, "P monitor rejects a seeded random walk of the real handler (run %s, prefix of %d steps)"
                               % (name, len(toks)), {"harness_args": args, "tokens": toks})
         ctx.log(name, info, stats, [f[0] for f in found])
+    # S (spec/Protocol.tla) bound to the same code: fidelity of StepF on extracted full-state graphs; S => P by pure TLC.
+    # Both only inform (DRIFT), they never produce a violation.
+    sdone = {}
+    if spec_fidelity:
+        from checks import proto_spec
+        for name, args, sample in spec_fidelity:
+            try:
+                n, bad = proto_spec.fidelity(ctx, exe, args, sample=None if ctx.thorough else sample)
+                proto_spec.report_drift(ctx, name, n, bad)
+                sdone[name] = {"edges_checked": n, "mismatches": len(bad)}
+            except Exception as e:  # a failing S run is a machinery problem of the informing part only
+                ctx.notes.append("S fidelity run %s failed: %s" % (name, str(e)[:300]))
+        if spec_mc:
+            try:
+                r = proto_spec.model_check(ctx)
+                sdone["S=>P model check"] = {c: {k: v[k] for k in ("distinct", "generated", "wall_s", "violated")} for c, v in r.items()}
+            except Exception as e:
+                ctx.notes.append("S => P model check failed: %s" % str(e)[:300])
     first = next(iter(per))
     ctx.coverage = {"states": states, "transitions": trans, "traces_validated_against_impl": len(per),
                     "samples": [{"config": first, **per[first]}], "configs": per, "graph_nodes": nodes, "graph_edges": edges,
-                    "exhaustive": True,
+                    "exhaustive": True, "s_model": sdone,
                     "rule": "every configuration's graph is extracted to a fix-point from the real handler; states/transitions "
                             "are those of the product (graph x monitors) explored by TLC"}
     ctx.assumptions = [
